@@ -528,6 +528,7 @@ type loopMods struct {
 	all     bool
 	reads   bool // the body may read input (the ghost tape cursor may move)
 	writes  bool // the body may write output (the ghost output cursor may move)
+	locks   bool // the body may lock or unlock a mutex
 }
 
 func (x *Exec) loopModSet(li *loopInfo) *loopMods {
@@ -568,6 +569,7 @@ func (x *Exec) loopModSet(li *loopInfo) *loopMods {
 	lm.all = ms.All
 	lm.reads = ms.Reads || ms.All
 	lm.writes = ms.Writes || ms.All
+	lm.locks = ms.Locks
 	return lm
 }
 
@@ -884,6 +886,12 @@ func (x *Exec) enterLoop(li *loopInfo, edges []edgeState) *State {
 	}
 	if lm.writes && !lm.all {
 		x.c.havocOpos(st)
+	}
+	if lm.writes {
+		x.c.havocWfault(st)
+	}
+	if lm.locks {
+		st.cells["$held"] = Val{S: x.c.freshSort("held", "Bool")}
 	}
 	if lm.all {
 		x.c.havocAll(st)
